@@ -269,7 +269,7 @@ impl<'jbrd, 'frame, 'meta> JpegBitstreamReconstructor<'jbrd, 'frame, 'meta> {
             let dequant_y = hf_global.dequant_matrices.jpeg_quant_values(1).unwrap();
             let dequant_b = hf_global.dequant_matrices.jpeg_quant_values(2).unwrap();
             let dc_dequant = [dequant_y[0], dequant_x[0], dequant_b[0]];
-            dc_dequant.map(|q| (1024 / q) as i16)
+            dc_dequant.map(|q| 1024i32.checked_div(q).unwrap_or(0) as i16)
         };
 
         Ok(Self {
@@ -324,11 +324,18 @@ impl<'jbrd, 'frame, 'meta> JpegBitstreamReconstructor<'jbrd, 'frame, 'meta> {
         let dequant_y = hf_global.dequant_matrices.jpeg_quant_values(1).unwrap();
         let dequant_b = hf_global.dequant_matrices.jpeg_quant_values(2).unwrap();
 
+        // Quantization values of an invalid frame may be zero or too large; don't panic on them.
+        let ratio = |y: i32, q: i32| {
+            (1i32 << CFL_FIXED_POINT_BITS)
+                .wrapping_mul(y)
+                .checked_div(q)
+                .unwrap_or(0)
+        };
         let dequant_yx = std::iter::zip(dequant_y, dequant_x)
-            .map(|(&y, &x)| (1 << CFL_FIXED_POINT_BITS) * y / x)
+            .map(|(&y, &x)| ratio(y, x))
             .collect::<Vec<_>>();
         let dequant_yb = std::iter::zip(dequant_y, dequant_b)
-            .map(|(&y, &b)| (1 << CFL_FIXED_POINT_BITS) * y / b)
+            .map(|(&y, &b)| ratio(y, b))
             .collect::<Vec<_>>();
         let quant_ratio = [dequant_yx, dequant_yb];
 
